@@ -318,7 +318,16 @@ def r5_listener_owned(ctx):
     ctx.check(R, "no-leak-api-in-crate", not leaks, "mem::forget / Box::leak / into_raw_fd / ManuallyDrop::new / into_std / transmute calls: %s" % leaks, None)
 
 
-RULES = [("C17.R1", r1_close_order), ("C17.R2", r2_server_task), ("C17.R3", r3_join_waits), ("C17.R4", r4_shared_result), ("C17.R5", r5_listener_owned)]
+
+def r3b_worker_lives_with_handler(ctx):
+    """C17.R3 waits for the waitgroup; that only waits for detached handlers if each detached handler task owns a
+    worker for as long as it runs — C16.R1, re-evaluated here because its violation is a C17 violation too (seed C17-A)."""
+    from . import c16
+    from .lib_c01 import Renamed
+    c16.r1_mode_table(Renamed(ctx, "C17.R3b", "every detached handler task holds a waitgroup worker until its handler future completed, so shutdown's wait covers it"))
+
+
+RULES = [("C17.R3b", r3b_worker_lives_with_handler), ("C17.R1", r1_close_order), ("C17.R2", r2_server_task), ("C17.R3", r3_join_waits), ("C17.R4", r4_shared_result), ("C17.R5", r5_listener_owned)]
 
 _S = "dropshot/src/server.rs"
 _I32 = " " * 32
@@ -365,3 +374,5 @@ SELFTEST = [
     {"name": "close-signal-via-local", "kind": "benign", "why": "behaviour-preserving: the sender is taken into a local first",
      "edits": [(_S, "        self.closer\n            .close_channel\n            .take()\n            .expect(\"cannot close twice\")\n            .send(())\n            .expect(\"failed to send close signal\");", "        let sender = self.closer.close_channel.take().expect(\"cannot close twice\");\n        let sent = sender.send(());\n        sent.expect(\"failed to send close signal\");")]},
 ]
+
+LEVEL_TEXT += " Also (R3b = C16.R1): each detached handler task owns a waitgroup worker until its handler future completed, which is what makes the join's wait cover detached handlers."
